@@ -24,7 +24,8 @@ namespace avel {
 
         explicit Denominator(Denom16u denom):
             m(denom.m),
-            sh2(denom.sh2),
+            sh1(decltype(sh1){denom.d != 1}),
+            sh2((denom.d != 1) ? denom.sh2 : 0),
             d(denom.d) {}
 
         explicit Denominator(vec16x16u d):
